@@ -77,6 +77,21 @@ fn main() {
             })
         }
         Some("replay") if args.len() >= 3 => orch::cmd_replay(&args[2]),
+        // diagnosis: execute a replay file in this process and list the allocator events
+        Some("events") if args.len() >= 3 => {
+            simalloc::init();
+            let text = std::fs::read_to_string(&args[2]).expect("read");
+            let rep = ops::Replay::from_text(&text).expect("parse");
+            let prop = Prop::from_id(&rep.trace.property).expect("property");
+            let out = interp::execute(prop, &rep.trace);
+            for e in simalloc::events() {
+                println!("op {:3} {:?} off={} size={} align={} recycled={}", e.op, e.kind, e.off, e.size, e.align, e.recycled);
+            }
+            for v in &out.violations {
+                println!("violation {} op {}: {}", v.sig, v.op, v.detail);
+            }
+            0
+        }
         // Miri tier (run under `cargo +nightly miri run`): in-process, no fork,
         // SimAlloc compiled out — Miri's abstract machine is the allocator model.
         Some("dump-traces") if args.len() >= 5 => {
